@@ -425,8 +425,11 @@ Definition f14_class (P : program) (q : query) : bool :=
                           end) (cbody c)
     end) cls.
 
-(** Known class F1 (DESIGN §5; [MayInvalidate] ignores repeated guidance variables): the
-    goal has an unknown and reaches a predicate one of whose clause heads repeats a variable. *)
+(** Known class F1 (DESIGN §5; [MayInvalidate] compares a new answer with the current guidance
+    position by position and ignores that the guidance may repeat a bound variable).  The
+    guidance can repeat a variable only if two unknowns of the goal can be identified, or one
+    unknown can be bound to a term with a repeated variable: the goal has at least two
+    unknowns, or it has one and reaches a clause (or hypothesis) head that repeats a variable. *)
 Fixpoint has_dup (l : list nat) : bool :=
   match l with
   | [] => false
@@ -437,12 +440,13 @@ Definition f1_class (P : program) (q : query) : bool :=
   let cls := query_clauses P q in
   let start := syms_of (goal_atoms (q_body q)) in
   let R0 := reachS (graph_fuel cls (length start)) cls start [] in
-  negb (Nat.eqb (length (q_ubs q)) 0) &&
-  existsb (fun c =>
-    match hsym (chead c) with
-    | None => false
-    | Some h => memN h R0 && has_dup (vars (chead c))
-    end) cls.
+  Nat.leb 2 (length (q_ubs q)) ||
+  (Nat.eqb (length (q_ubs q)) 1 &&
+   existsb (fun c =>
+     match hsym (chead c) with
+     | None => false
+     | Some h => memN h R0 && has_dup (vars (chead c))
+     end) cls).
 
 (** Known class F7q (found by the C05 builder; same mechanism as DESIGN §5 F7, but within one
     query): the ground search space of the goal contains a coinductive atom [g], different
